@@ -109,10 +109,6 @@ func (e *arityEngine) callCount(call *ast.CallExpr) (counts, bool) {
 	if isMethodCall(call, "tr", "UnNext") {
 		return single(-1), true
 	}
-	id, ok := call.Fun.(*ast.Ident)
-	if !ok {
-		return counts{}, false
-	}
 	takesTr := false
 	for _, a := range call.Args {
 		if trCanon(a) == "tr" {
@@ -121,6 +117,26 @@ func (e *arityEngine) callCount(call *ast.CallExpr) (counts, bool) {
 	}
 	if !takesTr {
 		return counts{}, false
+	}
+	id, ok := call.Fun.(*ast.Ident)
+	if !ok {
+		// a method that is handed the reader (attrs.readDeprecated(tr, …)), or a
+		// call through a function value
+		info := e.p.Bebop().TypesInfo
+		if cal := load.Callee(info, call); cal != nil && cal.Pkg() == e.p.Bebop().Types {
+			if fd := e.p.Decl(cal); fd != nil && fd.Body != nil {
+				return e.declSummary(load.FuncName(cal), fd), true
+			}
+		}
+		e.unknown = append(e.unknown, wire.Canon(call.Fun)+" (not a statically resolved function of the package)")
+		return single(0), true
+	}
+	if obj := e.p.Bebop().TypesInfo.ObjectOf(id); obj != nil {
+		if _, isFunc := obj.(*types.Func); !isFunc {
+			// a function-typed variable or parameter: the callee is not known statically
+			e.unknown = append(e.unknown, id.Name+" (called through a function value)")
+			return single(0), true
+		}
 	}
 	switch id.Name {
 	case "expectNext":
@@ -134,6 +150,21 @@ func (e *arityEngine) callCount(call *ast.CallExpr) (counts, bool) {
 		return single(0), true
 	}
 	return e.funcSummary(id.Name), true
+}
+
+func (e *arityEngine) declSummary(name string, fd *ast.FuncDecl) counts {
+	if c, ok := e.summary[name]; ok {
+		return c
+	}
+	if e.inProg[name] {
+		return counts{set: map[int]bool{}, unb: true}
+	}
+	e.inProg[name] = true
+	open, done := e.seq(fd.Body.List)
+	delete(e.inProg, name)
+	c := open.union(done)
+	e.summary[name] = c
+	return c
 }
 
 func (e *arityEngine) funcSummary(name string) counts {
@@ -461,10 +492,49 @@ func checkC16(c *core.Ctx) {
 	sort.Strings(ks)
 	c.Count("parser_top_level_kinds", len(ks))
 	c.Floor("parser_top_level_kinds", 7)
+	if top == nil || top.Tag == nil || !strings.HasSuffix(wire.Canon(top.Tag), ".kind") || len(top.Body.List) < 4 {
+		// another architecture (a dispatch table, for instance): which kinds
+		// are handled cannot be read off a switch
+		c.Undecide("format does not dispatch on the token kind with a switch: the coverage rule R1 does not apply to this shape")
+		ks = nil
+	}
 	for _, k := range ks {
 		c.Check("R1", "format has a writing arm for "+k, p.Pos(ff.Pos()), fmtKinds[k], "ReadFile records this construct in the File but the formatter has no arm for it: the construct is dropped from (or mangled in) the formatted output")
 	}
 
+	// The token-flow rules R2-R4d and R7 read the formatter as functions that
+	// are handed the reader and call tr.Next()/tr.Token() themselves. A
+	// formatter that reaches the reader through a wrapper type (a struct with
+	// the reader in a field and methods that take tokens) is outside what they
+	// can follow: no verdict rather than a wrong one.
+	wrapped := ""
+	for _, fd := range funcsOfFiles(p, pkg, "format.go") {
+		hasParam := false
+		for _, f := range fd.Type.Params.List {
+			for _, nm := range f.Names {
+				if o := info.ObjectOf(nm); o != nil && strings.HasSuffix(o.Type().String(), ".tokenReader") {
+					hasParam = true
+				}
+			}
+		}
+		if hasParam {
+			continue
+		}
+		ast.Inspect(fd.Body, func(n ast.Node) bool {
+			if call, ok := n.(*ast.CallExpr); ok {
+				if sel, ok := call.Fun.(*ast.SelectorExpr); ok && (sel.Sel.Name == "Next" || sel.Sel.Name == "UnNext" || sel.Sel.Name == "Token") {
+					if t := info.TypeOf(sel.X); t != nil && strings.HasSuffix(t.String(), ".tokenReader") {
+						wrapped = fd.Name.Name
+					}
+				}
+			}
+			return true
+		})
+	}
+	if wrapped != "" {
+		c.Undecide("format.go takes tokens through a wrapper (%s calls the reader it was not handed as a parameter): the token-flow rules R2-R4d, R6 and R7 do not apply to this shape", wrapped)
+		return
+	}
 	// ---- R2 arity pairs
 	e := &arityEngine{p: p, summary: map[string]counts{}, inProg: map[string]bool{}}
 	pairs := 0
@@ -649,7 +719,11 @@ func checkC16(c *core.Ctx) {
 		}
 		return true
 	})
-	c.Check("R5", "the readonly marker reaches formatStruct", p.Pos(ff.Pos()), raised, "no boolean set in the readonly arm is passed to formatStruct: `readonly struct` is formatted as `struct`")
+	if len(passed) == 0 {
+		c.Undecide("format does not call formatStruct with a boolean variable: how the readonly marker travels is not recognised")
+	} else {
+		c.Check("R5", "the readonly marker reaches formatStruct", p.Pos(ff.Pos()), raised, "no boolean set in the readonly arm is passed to formatStruct: `readonly struct` is formatted as `struct`")
+	}
 }
 
 
@@ -698,6 +772,24 @@ func lookaheadPutBack(c *core.Ctx, p *load.Prog) {
 				for _, st := range fs.Body.List {
 					if ifs, ok := st.(*ast.IfStmt); ok {
 						dispatchIf[ifs.Cond] = true
+					}
+				}
+			}
+			return true
+		})
+		loopTokens := map[types.Object]bool{}
+		ast.Inspect(fd.Body, func(m ast.Node) bool {
+			fs, ok := m.(*ast.ForStmt)
+			if !ok || fs.Cond == nil || !containsCall(fs.Cond, isNext) {
+				return true
+			}
+			for _, st := range fs.Body.List {
+				if containsCall(st, isNext) {
+					break
+				}
+				if as, ok := st.(*ast.AssignStmt); ok && len(as.Lhs) == 1 && len(as.Rhs) == 1 && isMethodCall(as.Rhs[0], "tr", "Token") {
+					if id, ok := as.Lhs[0].(*ast.Ident); ok {
+						loopTokens[info.ObjectOf(id)] = true
 					}
 				}
 			}
@@ -754,6 +846,30 @@ func lookaheadPutBack(c *core.Ctx, p *load.Prog) {
 			}
 			if be == nil {
 				continue
+			}
+			// the token a `for tr.Next()` loop is working on (t := tr.Token() at the
+			// top of its body): a test of its kind classifies, it does not look ahead
+			if sel, ok := ast.Unparen(be.X).(*ast.SelectorExpr); ok {
+				if id, ok := ast.Unparen(sel.X).(*ast.Ident); ok && loopTokens[info.ObjectOf(id)] {
+					continue
+				}
+			}
+			// a token received as a parameter was taken by the caller: classifying
+			// it is not a lookahead of this function
+			if sel, ok := ast.Unparen(be.X).(*ast.SelectorExpr); ok {
+				if id, ok := ast.Unparen(sel.X).(*ast.Ident); ok {
+					isParam := false
+					for _, f := range fd.Type.Params.List {
+						for _, nm := range f.Names {
+							if info.ObjectOf(nm) == info.ObjectOf(id) {
+								isParam = true
+							}
+						}
+					}
+					if isParam {
+						continue
+					}
+				}
 			}
 			skip := false
 			for c := range dispatchIf {
@@ -1134,6 +1250,20 @@ func tokensVerbatim(c *core.Ctx, p *load.Prog, rule string) {
 				uses++
 				fn := wire.Canon(x.Fun)
 				okCall := fn == "append" || strings.HasSuffix(fn, ".SafeWrite") || strings.HasSuffix(fn, ".Write") || local[fn]
+				if sel, isSel := x.Fun.(*ast.SelectorExpr); isSel && !okCall {
+					if s2, found := info.Selections[sel]; found && s2.Kind() == types.FieldVal {
+						okCall = true // a function stored in a field: same argument as below
+					}
+				}
+				if id, isId := x.Fun.(*ast.Ident); isId && !okCall {
+					// a function value (parameter or variable): its possible targets are
+					// functions of format.go, which this scan covers
+					if o := info.ObjectOf(id); o != nil {
+						if _, isVar := o.(*types.Var); isVar {
+							okCall = true
+						}
+					}
+				}
 				if !okCall {
 					c.Check(rule, fmt.Sprintf("%s passes token text only to append/Write (%s)", fd.Name.Name, fn), p.Pos(x.Pos()), false,
 						"the text of a token goes through "+fn+" before it is written: what is written is no longer what was read (a re-spaced `//[tag(…)]` comment stops being a field tag; a re-spelled literal changes value)")
